@@ -1100,6 +1100,11 @@ def join_store(a, b):
 
 
 def mkpred(name, *args):
+    if name in ("eq", "ne", "lt", "le", "gt", "ge") and len(args) == 2:
+        a, b = const_of(args[0]), const_of(args[1])
+        if a is not None and a == b and re.match(r"^-?\d+(_[iu]\d+|_usize)?$|^(true|false)$", a):
+            # the same literal on both sides (e.g. zero() > zero()): decided
+            return V("Const(true)" if name in ("eq", "le", "ge") else "Const(false)")
     return Val(frozenset([(("pred", name) + tuple(args), NOOPS)]))
 
 
